@@ -1,6 +1,7 @@
 """C10 - see lib/srvprop.py (family table, generators) and spec/H2Server.tla, spec/H2ServerTrace.tla.
 Goroutine-level models: spec/GoAwayHandshake.tla (last-stream-id of a GOAWAY sent beside the stream loop; bound to the
-code by the "hs" step events, clause C10:goaway-handshake-out-of-order) and spec/H2Teardown.tla (ServeConn returns)."""
+code by the "hs" step events, clause C10:goaway-handshake-out-of-order) spec/GoAwaySenders.tla (several GOAWAY senders under goAwayLck; bound by the ga-two-senders scenarios) and
+spec/H2Teardown.tla (ServeConn returns)."""
 import srvprop
 
 
@@ -8,6 +9,9 @@ def models(ctx):
     ctx.model_check('GoAwayHandshake', 'GoAwayHandshake.cfg', workers=2)
     ctx.model_expect_violation('GoAwayHandshake', 'GoAwayHandshake_bad1.cfg', 'GoAwayTruth', workers=2)
     ctx.model_expect_violation('GoAwayHandshake', 'GoAwayHandshake_bad2.cfg', 'GoAwayTruth', workers=2)
+    ctx.model_check('GoAwaySenders', 'GoAwaySenders.cfg', workers=2)
+    ctx.model_expect_violation('GoAwaySenders', 'GoAwaySenders_bad1.cfg', 'GoAwayTruth', workers=2)
+    ctx.model_expect_violation('GoAwaySenders', 'GoAwaySenders_bad2.cfg', 'NeverGrows', workers=2)
     ctx.model_check('H2Teardown', 'H2Teardown.cfg', workers=8)
     ctx.model_expect_violation('H2Teardown', 'H2Teardown_asfound.cfg', 'violated', workers=8)
 
